@@ -657,17 +657,39 @@ Theorem C10_partial_mapping_id_collision_refuted :
 Proof. exact partial_mapping_id_collision_refuted. Qed.
 Print Assumptions C10_partial_mapping_id_collision_refuted.
 
-(** DFS-STYLE ANNOTATED SMILES ("[H]1", map number after the bracket) <-> SMILES WITH ATOM MAPS ("[H:1]"): the string rewriting at
-    the bottom of chem_converter.py (dfs_to_smiles / smiles_to_dfs: str.replace + re.sub, modelled on code-point lists in
-    model/C10_Dfs.v and compared on every run).  For every token string — bracket atoms "[inner]digits" whose content has no
-    bracket and no colon and is not the wildcard, whose map number is followed by a non-digit, and any other characters except
-    "[" in between — that contains neither "[]" nor "[*]": dfs_to_smiles moves every map number into its bracket, smiles_to_dfs
-    moves it out again, and DFS -> SMILES -> DFS is the identity.  (Outside the domain it is not: "[C:1]5" comes back as "[C]15",
-    proof/C10_Dfs.v dfs_roundtrip_needs_stop.) *)
+(** DFS-STYLE ANNOTATED SMILES ("[H]1", map number after the bracket; the wildcard is "[]3") <-> SMILES WITH ATOM MAPS ("[H:1]",
+    "[*:3]"): the string rewriting at the bottom of chem_converter.py (dfs_to_smiles / smiles_to_dfs: str.replace + re.sub,
+    modelled on code-point lists in model/C10_Dfs.v and compared on every run).  For every token string — bracket atoms
+    "[inner]digits" whose content has no bracket and no colon and is not "*", wildcard atoms "[]digits", every map number followed by
+    a non-digit, and any other characters except "[" in between — that does not contain "[*]": dfs_to_smiles moves every map number
+    into its bracket (writing the wildcard "[*:n]"), smiles_to_dfs moves it out again, and DFS -> SMILES -> DFS is the identity.
+    (Outside the domain it is not: "[C:1]5" comes back as "[C]15", proof/C10_Dfs.v dfs_roundtrip_needs_stop.) *)
 Theorem C10_dfs_roundtrip :
-  forall l : list dtok, toks_ok l = true ->
-    contains s_empty_br (render_toks l) = false -> contains s_star_br (render_toks l) = false ->
+  forall l : list dtok, toks_ok l = true -> contains s_star_br (render_toks l) = false ->
     dfs_to_smiles (render_toks l) true = render_mapped l /\ smiles_to_dfs (render_mapped l) = render_toks l /\
     smiles_to_dfs (dfs_to_smiles (render_toks l) true) = render_toks l.
 Proof. exact dfs_roundtrip. Qed.
 Print Assumptions C10_dfs_roundtrip.
+
+(** THE THREE ROUTES, FROM THE RDKIT RECORDS: the inputs are what MolToGraph reads from the two sanitised RDKit molecules of a reaction
+    string (atoms: symbol, aromatic flag, total H count, charge, map; bonds: begin, end, 2 x type), in the contract [rdmol_ok] (element
+    symbols in [A-Za-z*]+, bond types single / aromatic / double / triple, distinct map numbers — monitored per molecule);
+    r, p = rsmi_to_graph's graphs (drop_non_aam = use_index_as_atom_map = True).  If the reaction is atom-balanced, the rule written
+    from the string, from the full ITS and from the centre only each read back as exactly the reaction centre. *)
+Theorem C10_three_routes_from_records :
+  forall (mr mp : rmol) (eo : list (N * N)) (explicit_h : bool),
+    rdmol_ok mr = true -> rdmol_ok mp = true ->
+    let r := mol_to_graph mr true true in
+    let p := mol_to_graph mp true true in
+    balanced r p = true -> eo_covers r p eo = true ->
+    let c := get_rc (its_construct r p eo) in
+    let reads_c := fun X : gr =>
+      (forall n, has_node X n = has_node c n) /\
+      (forall n a, label c n = Some a ->
+         label X n = Some (gml_node n (tg_el (tG_of a)) (tg_ch (tG_of a)) (tg_ch (tH_of a)))) /\
+      (forall u v, adj X u v = adj c u v) in
+    reads_c (gml_to_its (smart_to_gml r p eo true false explicit_h)) /\
+    reads_c (gml_to_its (its_to_gml (rsmi_to_its r p eo false false) true false explicit_h)) /\
+    reads_c (gml_to_its (its_to_gml (rsmi_to_its r p eo true false) true false explicit_h)).
+Proof. exact three_routes_from_records. Qed.
+Print Assumptions C10_three_routes_from_records.
